@@ -162,6 +162,8 @@ class BusRun:
             if s['h'] not in self.keys:
                 return
             name, hnd, kw = self.regd[s['h']]
+            if '{' in name:
+                return      # replace_handler is only defined for unconditional registrations (the spec's guard): not driven
             self.keys[s['h']] = self.evm.replace_handler(name, hnd, priority=s['prio'], **kw)
             self.ev.append({'op': 'replace', 'h': s['h'], 'prio': s['prio']})
 
